@@ -151,7 +151,7 @@ class SpecLib:
         box = isinstance(obj, VBox)
         s = self.seqval(obj)
         if isinstance(s, VOpt):
-            if ex.branch(s.isnone):
+            if ex.may_raise(s.isnone):
                 ex.raise_(TypeError)
             s = self.seqval(s.val)
         if isinstance(s, VTuple):
@@ -207,7 +207,7 @@ class SpecLib:
 
     def getitem(self, ex, obj, key, node=None):
         if isinstance(obj, VOpt):
-            if ex.branch(obj.isnone):
+            if ex.may_raise(obj.isnone):
                 ex.raise_(TypeError, node=node)
             obj = obj.val
         if isinstance(obj, VTuple):
@@ -234,7 +234,7 @@ class SpecLib:
             s = obj.val
             n = s.length()
             i = unwrap("int", key)
-            if ex.branch(z3.Or(i >= n, i < -n)):
+            if ex.may_raise(z3.Or(i >= n, i < -n)):
                 ex.raise_(IndexError)
             i = z3.If(i < 0, i + n, i)
             t = s.t
@@ -615,7 +615,7 @@ class SpecLib:
             if isinstance(v, VOpt):
                 if ex.spec_mode:
                     v = v.val
-                elif ex.branch(v.isnone):
+                elif ex.may_raise(v.isnone):
                     ex.raise_(TypeError)
                 else:
                     v = v.val
@@ -709,7 +709,7 @@ class SpecLib:
             if not (isinstance(mode, VSeq) and mode.pyval == "rb"):
                 raise Unsupported("open() mode %r" % (mode,))
             if isinstance(name, VOpt):
-                if ex.branch(name.isnone):
+                if ex.may_raise(name.isnone):
                     ex.raise_(TypeError)
                 name = name.val
             data = VSeq("bytes", "int", F_FILEDATA(name.t))
@@ -762,7 +762,7 @@ class SpecLib:
             if s.pyval == []:
                 ex.raise_(IndexError)
             n = s.length()
-            if ex.branch(n == 0):
+            if ex.may_raise(n == 0):
                 ex.raise_(IndexError)
             if len(a) > 1:
                 k = a[1].py()
@@ -786,7 +786,7 @@ class SpecLib:
         def it_next(ex, a, kw):
             box = a[0]
             seq, cur = box.val
-            if ex.branch(cur.t >= seq.length()):
+            if ex.may_raise(cur.t >= seq.length()):
                 if len(a) > 1:
                     return a[1]
                 ex.raise_(StopIteration)
@@ -903,7 +903,7 @@ class SpecLib:
                 new = n + off
             else:
                 raise Unsupported("seek whence %r" % (wh,))
-            if ex.branch(new < 0):
+            if ex.may_raise(new < 0):
                 ex.raise_(OSError)       # ValueError for BytesIO, OSError for files: both unexpected
             fp.fields["pos"] = VInt(z3.simplify(new))
             return VInt(new)
@@ -937,7 +937,7 @@ class SpecLib:
         pid = self.pattern_id(pat)
         subj = subject
         if isinstance(subj, VOpt):
-            if ex.branch(subj.isnone):
+            if ex.may_raise(subj.isnone):
                 ex.raise_(TypeError)
             subj = subj.val
         if not isinstance(subj, VSeq):
